@@ -470,6 +470,22 @@ def r6_folders(c, facts, rule='C17.R6'):
         c.bad(R, 'find_folders:extra-selection:%s' % ','.join(sorted(other)), 'the folders that answer are also selected by %s: a module that the program imports from outside the folder root gets no answer (go-to-definition and find-references inside it return nothing)' % sorted(other))
     if first_only:
         c.bad(R, 'folders:first-match-only:%s' % ','.join(sorted(first_only)), 'only the first workspace folder that contains the document answers (%s): a module shared by two programs is looked up, referenced and renamed in one of them only' % sorted(first_only))
+    # ... and find-references collects over all of them: once a folder has answered, the only way on is the next folder
+    rf = facts.fn('oal_client::lsp::handlers::references')
+    if rf is not None and rf.mir:
+        rfn = facts.normalised(rf)
+        loops = [(b, t) for b, t in P.call_blocks(rfn, 'Iterator::next') if 'Folder' in rfn.mir['locals'][t['dest']['l']]['ty']]
+        frs = P.call_blocks(rfn, 'handlers::find_references')
+        if loops and frs:
+            nb = loops[0][0]
+            err = P.err_blocks(rfn)
+            for fb, ft in frs:
+                reach = rfn.reachable_from(ft['target'], avoid={nb} | err)
+                if any(rfn.mir['blocks'][x]['term']['t'] == 'return' for x in reach):
+                    first_only.add('references:return-in-loop')
+    if first_only - set(x for x in first_only if not x.startswith('references:return')):
+        c.bad(R, 'folders:references-return-at-first-folder', 'find-references returns as soon as one workspace folder has answered: the uses of a shared module in the other folders that import it are lost (which folder answers follows the iteration order of a HashMap)')
+        first_only = {x for x in first_only if not x.startswith('references:return')}
     if not other and not first_only:
         c.ok(R, {'folder selection': 'Folder::contains only, every matching folder', 'sites': len(sel) + len(direct)})
 
